@@ -143,16 +143,23 @@ LC = S.LockCheck(
           "or a failed try_read/try_write)"),
     assumptions=S.COMMON_ASSUMPTIONS + [
         "the state word is logged and modelled with scaled constants (count 0..6, WRITE_LOCKED=7 for 2^30-1, READERS_WAITING=8, WRITERS_WAITING=16); reader counts near 2^30 (the overflow assert) are not reached",
-        "bounded: 2-4 threads, 1-2 acquisitions per thread, <=1 spurious wake / EINTR / weak-CAS failure per thread where budgeted, DFS preemption bounds as listed under coverage.exploration"])
+        "bounded: 2-4 threads, 1-2 acquisitions per thread, <=1 spurious wake / EINTR / weak-CAS failure per thread where budgeted, DFS preemption bounds as listed under coverage.exploration"],
+    all_actions=["ReadLoad", "ReadCasWeak", "ReadCasWeakSpur", "RcSpinLoad", "RcCasWeak", "RcCasWeakSpur", "RcSetRw", "RcWaitFastLoad", "RcFutexWait",
+                 "ReadUnlockFetchSub", "WriteCasWeak", "WriteCasWeakSpur", "WcSpinLoad", "WcCasWeak", "WcCasWeakSpur", "WcSetWw", "WcLoadSeq",
+                 "WcReloadState", "WcWaitFastLoad", "WcFutexWait", "WriteUnlockFetchSub", "KCasWritersOnly", "KCasBoth", "KwFetchAdd", "KwWakeOne",
+                 "KwWakeNone", "KCasReadersOnly", "KWakeAllReaders", "TryReadLoad", "TryReadCasWeak", "TryReadCasWeakSpur", "TryWriteLoad",
+                 "TryWriteCasWeak", "TryWriteCasWeakSpur", "AccessWrite", "AccessRead", "SpuriousWake", "Eintr"])
 
 
 def run(tier):
     if tier == "quick":
         tours = [("wr", 2, "A_WR", (1, 1, 1)), ("ww", 2, "A_WW", (1, 1, 1)), ("wtr", 2, "A_WTR", (1, 1, 1)),
                  ("rtw", 2, "A_RTW", (1, 1, 1)), ("tt", 2, "A_TT", (0, 0, 1))]
-        configs = [("wwr", 3, "C_WWR", (0, 0, 0)), ("wrt", 3, "C_WRT", (0, 0, 0))]
+        configs = [("wrt", 3, "C_WRT", (0, 0, 0))]      # wwr is model-checked (and partially toured) as rare_tours
         configs_if_differs = [("wr", 2, "A_WR", (1, 1, 1)), ("ww", 2, "A_WW", (1, 1, 1))]
         specs = [
+            ("dfs_a_wr", {"progs": PROGS["A_WR"], "preempt": 3, "max_runs": 1500, "spur": 1, "eintr": 1, "weak": 1, "graph": "wr"}),
+            ("dfs_a_ww", {"progs": PROGS["A_WW"], "preempt": 2, "max_runs": 1500, "spur": 1, "eintr": 1, "weak": 1, "graph": "ww"}),
             ("dfs_wr", {"progs": PROGS["B_1"], "preempt": 2, "max_runs": 2500, "spur": 0, "eintr": 0, "weak": 0}),
             ("dfs_try", {"progs": PROGS["B_2"], "preempt": 2, "max_runs": 1500, "spur": 1, "eintr": 0, "weak": 1}),
             ("dfs_wwr", {"progs": PROGS["C_WWR"], "preempt": 2, "max_runs": 2500, "spur": 0, "eintr": 0, "weak": 0}),
@@ -166,10 +173,13 @@ def run(tier):
     else:
         tours = [("wr", 2, "A_WR", (1, 1, 1)), ("ww", 2, "A_WW", (1, 1, 1)), ("wtr", 2, "A_WTR", (1, 1, 1)),
                  ("rtw", 2, "A_RTW", (1, 1, 1)), ("tt", 2, "A_TT", (0, 0, 1)), ("wrt", 3, "C_WRT", (0, 0, 0))]
-        configs = [("b1", 2, "B_1", (1, 0, 1)), ("b2", 2, "B_2", (1, 0, 1)), ("wwr", 3, "C_WWR", (1, 0, 1)), ("wrr", 3, "C_WRR", (1, 0, 1)),
+        configs = [("b1", 2, "B_1", (1, 0, 1)), ("b2", 2, "B_2", (1, 0, 1)), ("wrr", 3, "C_WRR", (1, 0, 1)),
                    ("www", 3, "C_WWW", (1, 0, 0)), ("e1", 3, "E_1", (0, 0, 0)), ("wwrr", 4, "F_WWRR", (0, 0, 0))]
         configs_if_differs = [("wr", 2, "A_WR", (1, 1, 1)), ("ww", 2, "A_WW", (1, 1, 1))]
         specs = [
+            ("dfs_a_wr", {"progs": PROGS["A_WR"], "preempt": 4, "max_runs": 30000, "spur": 1, "eintr": 1, "weak": 1, "graph": "wr"}),
+            ("dfs_a_ww", {"progs": PROGS["A_WW"], "preempt": 4, "max_runs": 30000, "spur": 1, "eintr": 1, "weak": 1, "graph": "ww"}),
+            ("dfs_a_wtr", {"progs": PROGS["A_WTR"], "preempt": 4, "max_runs": 30000, "spur": 1, "eintr": 1, "weak": 1, "graph": "wtr"}),
             ("dfs_wr", {"progs": PROGS["B_1"], "preempt": 3, "max_runs": 30000, "spur": 1, "eintr": 0, "weak": 1}),
             ("dfs_try", {"progs": PROGS["B_2"], "preempt": 3, "max_runs": 30000, "spur": 1, "eintr": 1, "weak": 1}),
             ("dfs_wwr", {"progs": PROGS["C_WWR"], "preempt": 3, "max_runs": 30000, "spur": 0, "eintr": 0, "weak": 0}),
@@ -181,7 +191,8 @@ def run(tier):
             ("rnd4", {"progs": [WAU + RAU, RAU + WAU, TWAU + RAU, RAU + TRAU], "runs": 4000, "spur": 1, "eintr": 1, "weak": 1}),
         ]
     stress = {"threads": 4, "sections": 1500} if tier == "quick" else {"threads": 8, "sections": 10000}
-    return LC.run(tier, tours, configs, configs_if_differs, specs, stress=stress)
+    rare = [("wwr", 3, "C_WWR", (0, 0, 0))] if tier == "quick" else [("wwr1", 3, "C_WWR", (1, 0, 1))]
+    return LC.run(tier, tours, configs, configs_if_differs, specs, stress=stress, rare_tours=rare)
 
 
 def replay(path):
